@@ -18,3 +18,8 @@ check("C08",
  "Decides the listed panic classes only: over every function reachable from a decoding entry point, each fixed-size-array index, integer divisor, make size, signed shift count, comma-less type assertion and explicit panic is an obligation. 'Discharged' is a sound over-approximation in the interval/known-bits domain; 'violated' is reported only on a witness shape (stream-tainted operand that is exactly out of range, has no limit applied at all, or is a never-compared field still holding its zero value); the rest is counted out-of-scope. Slice/string bounds, nil dereference and stack depth are NOT decided, so a clean run does not imply C08; a violation refutes it.",
  "trusted: go/ssa, VTA call graph, points-to closure deciding which byte buffers hold stream data, field/element summaries with exit-refined stores (assumes parse errors are propagated and the object dropped)",
  "DESIGN.md §4 C08, §3.3")
+check("C17",
+ "must-check-before-use of adversarial arguments via interval/taint analysis + dominance rules for buffer-length tests and header narrowing",
+ "Decides structural clauses: (VALIDATE-FIRST) no encoder argument / unvalidated EncodeParams field is consumed by arithmetic, an allocation, an index or a narrowing conversion while still exactly as it arrived; (BUFFER-CHECK) every []byte pixel argument of an encoding entry point is length-tested with an error exit before it is indexed or handed on; (NARROW) every conversion to an 8/16-bit header field in a header writer is value-preserving under the ranges validation establishes; plus the IDX/DIV/MAKE/SHIFT/ASSERT/PANIC classes of C08 over encode-reachable code with the arguments as adversarial sources. That a returned stream decodes to the requested geometry is decided only through NARROW.",
+ "trusted: as C08; validator postconditions assume the validator's error is propagated (checked: the validator call dominates every other call of the entry point and its result is nil-tested)",
+ "DESIGN.md §4 C17")
